@@ -72,8 +72,22 @@ def std_run(alphabet, depth, lists):
     return run_entry([alphabet] * depth, lists)
 
 
+# (c) several URL-valued attributes on ONE element, one of them on an exceptional path of the sanitizer (urlparse raises
+# ValueError: unbalanced IPv6 bracket), in both role assignments: attributes are judged one by one in the specification
+URIS = [" href=http://[", " href=javascript:z", " ping=javascript:z", " ping=h://]", " cite=//[::1", " cite=vbscript:z",
+        " src=javascript:z", " src=http://]", " poster=http://x", " title=x"]
+URIS_PRE, URIS_POST = "<a", ">x</a>"
+# (d) hazards inside the tokens the sanitizer passes through UNCHANGED: the doctype's identifiers, both quote styles, after
+# PUBLIC / SYSTEM / a public identifier; the first parse keeps document-level nodes (plan entry 1: document, dom builder)
+DT_KW = [" PUBLIC", " SYSTEM"]
+DT_ID = [' "a"', " 'a'", " 'x><img src=x onerror=y>'", ' "x><img src=x onerror=y>"', " '\"><img src=x onerror=y>'",
+         " \"'><img src=x onerror=y>\"", " '><img src=x onerror=y>'", " 'x'y"]
+DT_PRE, DT_POST = "<!DOCTYPE html", "><p>"
+
 REFS_RUN = run_entry(["refs", "refs"], "default", REFS_PRE, REFS_POST, LIGHT_PLAN)
 LONG_RUN = run_entry(["pads", "tails"], "default", LONG_PRE, LONG_POST, LIGHT_PLAN)
+URIS_RUN = run_entry(["uris", "uris"], "default", URIS_PRE, URIS_POST, [6])
+DOCTYPE_RUN = run_entry(["dtkw", "dtid", "dtid"], "default", DT_PRE, DT_POST, [1])
 
 # allow-list configurations: "default" = what HTMLSerializer(sanitize=True) uses; "extended" = the default lists plus
 # elements that html5lib's serializer writes as raw text by their bare name (an application that allows them)
@@ -141,7 +155,7 @@ def _mc_keys():
     """every element / attribute key the MC alphabet can produce (generously: all names of the alphabet in all namespaces)"""
     import re
     names, attrs = set(["html", "head", "body", "tbody", "tr", "colgroup", "img", "br", "p"]), set()
-    for f in ALL + CORE + DEEP + [REFS_PRE, LONG_PRE + "x onmouseover=y>"]:
+    for f in ALL + CORE + DEEP + [REFS_PRE, LONG_PRE + "x onmouseover=y>", URIS_PRE + "".join(URIS) + URIS_POST, "<img src=x onerror=y>"]:
         for m in re.finditer(r"</?([A-Za-z][A-Za-z0-9-]*)((?:\s+[^\s>=]+(?:=[^\s>]*)?)*)", f):
             names.add(m.group(1))
             names.add(m.group(1).lower())
@@ -165,7 +179,8 @@ def write_cfg(path, runs=()):
     for nm in ("default", "extended"):
         lists[nm] = project_lists(filter_lists(filter_kwargs(nm)), elkeys, atkeys, names, "")
     cfg = {"alphabets": {"all": [enc(f) for f in ALL], "core": [enc(f) for f in CORE], "deep": [enc(f) for f in DEEP],
-                         "refs": [enc(f) for f in REFS], "pads": [enc("A" * n) for n in value_sizes(MC_SIZE_CAP, (64, 256))], "tails": [enc(f) for f in MC_TAILS]},
+                         "refs": [enc(f) for f in REFS], "pads": [enc("A" * n) for n in value_sizes(MC_SIZE_CAP, (64, 256))], "tails": [enc(f) for f in MC_TAILS],
+                         "uris": [enc(f) for f in URIS], "dtkw": [enc(f) for f in DT_KW], "dtid": [enc(f) for f in DT_ID]},
            "lists": lists, "opts": OPTS, "runs": list(runs),
            "firsts": [{"cx": enc(c), "scr": s} for c, s in FIRSTS],
            "reparses": [{"cx": enc(c), "scr": s} for c, s in REPARSES],
